@@ -86,6 +86,8 @@ func genC05(t *rapid.T) *Case {
 	p.Attr = noisyAttr
 	p.EscapedText = true
 	p.ForeignRawText = true
+	p.Top = append(append([]wc{}, p.Top...), wc{"fakeplaceholder", 4})
+	p.Core = append(append([]wc{}, p.Core...), wc{"fakeplaceholder", 4})
 	p.Inline = append(append([]wc{}, p.Inline...), wc{"mxss", 3})
 	p.Inline = append(append([]wc{}, p.Inline...), wc{"escaped", 4})
 	p.Core = append(append([]wc{}, p.Core...), wc{"pre", 6}, wc{"list", 6})
